@@ -623,7 +623,7 @@ def check_c09(ctx: Ctx, job):
             state["n"] += 1
             if state["n"] == at:
                 state["killed_at_clock"] = sch.clock
-                return True
+                return True if job.get("exit_status") is None else int(job["exit_status"])
             return False
 
         s.kill_plan = plan
@@ -697,7 +697,9 @@ def gen_c09(ctx: Ctx, n: int):
         cfg["persistent"] = second
         jobs.append({"cfg": cfg, "seed": ctx.rng.randrange(1 << 30), "victim": ctx.rng.randrange(cfg["W"]),
                      "at": ctx.rng.choice([1, 2, 3, 4, 5, 6, 8, 10, 13, 17, 22, 30] if not second else [1, 1, 2, 2, 3, 4, 5, 6, 8, 10, 13]),
-                     "sd_at": ctx.rng.choice([0, 1, 2, 3]), "adversarial": ctx.rng.random() < 0.3, "second_epoch": second})
+                     "sd_at": ctx.rng.choice([0, 1, 2, 3]), "adversarial": ctx.rng.random() < 0.3, "second_epoch": second,
+                     # SIGKILL, or the worker ends itself (os._exit(n) in user code); status 0 is not reported by SIGCHLD
+                     "exit_status": ctx.rng.choice([None, None, 0, 0, 1, 3])})
     return jobs
 
 
